@@ -39,3 +39,43 @@ pub unsafe fn odd_dealloc_nonnull(ptr: core::ptr::NonNull<u8>, layout: core::all
 pub unsafe fn odd_realloc_nonnull(ptr: core::ptr::NonNull<u8>, layout: core::alloc::Layout, new_size: usize) -> *mut u8 {
     odd_realloc(ptr.as_ptr(), layout, new_size)
 }
+
+// Counting allocator stubs ("ledger"): forward to System and count events, so that a harness can assert that an
+// operation performed NO allocator event (try_reclaim, reclaiming reserve) or exactly the expected ones.
+pub static mut N_ALLOC: usize = 0;
+pub static mut N_ALLOC_BYTEBUF: usize = 0;
+pub static mut N_DEALLOC: usize = 0;
+pub static mut N_REALLOC: usize = 0;
+pub static mut LAST_ALLOC_SIZE: usize = 0;
+pub unsafe fn cnt_alloc(layout: core::alloc::Layout) -> *mut u8 {
+    use std::alloc::{GlobalAlloc, System};
+    N_ALLOC += 1;
+    if layout.align() == 1 {
+        N_ALLOC_BYTEBUF += 1;
+        LAST_ALLOC_SIZE = layout.size();
+    }
+    System.alloc(layout)
+}
+pub unsafe fn cnt_dealloc(ptr: *mut u8, layout: core::alloc::Layout) {
+    use std::alloc::{GlobalAlloc, System};
+    N_DEALLOC += 1;
+    System.dealloc(ptr, layout)
+}
+pub unsafe fn cnt_dealloc_nonnull(ptr: core::ptr::NonNull<u8>, layout: core::alloc::Layout) {
+    cnt_dealloc(ptr.as_ptr(), layout)
+}
+pub unsafe fn cnt_realloc(ptr: *mut u8, layout: core::alloc::Layout, new_size: usize) -> *mut u8 {
+    use std::alloc::{GlobalAlloc, System};
+    N_REALLOC += 1;
+    if layout.align() == 1 {
+        N_ALLOC_BYTEBUF += 1;
+        LAST_ALLOC_SIZE = new_size;
+    }
+    System.realloc(ptr, layout, new_size)
+}
+pub unsafe fn cnt_realloc_nonnull(ptr: core::ptr::NonNull<u8>, layout: core::alloc::Layout, new_size: usize) -> *mut u8 {
+    cnt_realloc(ptr.as_ptr(), layout, new_size)
+}
+pub unsafe fn alloc_events() -> usize {
+    N_ALLOC + N_DEALLOC + N_REALLOC
+}
